@@ -260,11 +260,25 @@ async def quiesce_and_probe(sim) -> None:
 
         ctx.violate("C09", "probe", "exc:" + exc_sig(err), f"probe raised {type(err).__name__}: {err}")
     await asyncio.sleep(1.0)
-    if not sim.tr.is_closing():
+    if getattr(sim, "engine", None) is not None:
+        try:
+            await asyncio.wait_for(sim.engine.stop(), 30)
+        except Exception as err:  # noqa  (stop() hands on the error the connection was lost with: not the sender's business)
+            ctx.probe(f"engine_stop_raised_{type(err).__name__}")
+    elif not sim.tr.is_closing():
         sim.tr.close()
     await asyncio.sleep(1.0)
 
 
+SENDER_MODULES = ("protocol.", "protocol_fsm.", "transport.", "gateway.", "command.", "packet.", "frame.", "address.")
+
+
 def judge_loop_exc(sim, e: dict) -> None:
+    fn = e["sig"].split("@", 1)[1] if "@" in e["sig"] else ""
+    if sim.plan.knob("api", "proto") == "gateway_task" and fn and not fn.startswith(SENDER_MODULES):
+        # a whole Gateway also dispatches the (fabricated) replies to its devices and systems; what their handlers make of a
+        # responder's made-up topology is not the send machinery's doing (C13/C15 look at that with real histories)
+        sim.ctx.probe("device_handler_exception_(gateway_api,_not_judged)")
+        return
     sim.ctx.violate("C09", "loop_exc", e["sig"], f"unhandled in the event loop at t={e['t']}: {e['message']}: "
                     f"{e['type']}: {e['text']}")
